@@ -117,13 +117,13 @@ impl SendWindow {
     }
 
     /// Check the ACK seq num in the incoming packet (if any) without changing the window:
-    /// an ACK for a sequence number which is further back than the window size cannot
-    /// refer to anything we have sent and not got acknowledged yet.
+    /// only the last acknowledged sequence number or one of the segments still in flight
+    /// (there are `window_size - level` of those) can be acknowledged.
     fn check_incoming(&self, hdr: &BtpHdr) -> Result<(), Error> {
         if let Some(ack_seq_num) = hdr.get_ack() {
             let unacknowledged = (Wrapping(self.last_sent_seq_num) - Wrapping(ack_seq_num)).0;
 
-            if unacknowledged > self.window_size {
+            if unacknowledged > self.window_size - self.level {
                 warn!(
                     "RX data integrity failure: ACK for a sequence number that was never sent: {}",
                     ack_seq_num
